@@ -32,6 +32,11 @@ def marker(tag):
     return ('expr', call('systemLog', sq(tag)))
 
 
+FUNCTION_NAME_STEMS = ['fn'] * 8 + ['returnOf', 'iffy', 'forEach', 'whileOk', 'breaker', 'continued', 'elsewhere', 'endifx', 'jumper', 'jumpifx',
+                                  'included', 'functional', 'endfunctionx', 'elifx', 'endforx', 'endwhilex']
+KEYWORD_LIKE_VARIABLES = ['returned', 'ifs', 'forx', 'whilst', 'breaks', 'jumps', 'elsex', 'continues', 'includes', 'functions', 'endifs', 'inx', 'nulls', 'truex']
+
+
 class ProgGen:
     """Seeded generator. opts: functions (max count), max_depth, probes, globals (name -> type letter), jumps, returns."""
 
@@ -89,8 +94,13 @@ class ProgGen:
         return out
 
     def assign_target(self, ctx):
-        name = self.r.choice(['x', 'y', 'z', 'w'])
-        return name
+        r = self.r
+        c = r.random()
+        if c < 0.12:
+            return r.choice(KEYWORD_LIKE_VARIABLES)         # identifiers that merely begin with a keyword
+        if c < 0.16 and self.funcs and not ctx['infunc']:
+            return r.choice(self.funcs)[0]                  # a function name re-bound to a plain value (a later definition binds it again)
+        return r.choice(['x', 'y', 'z', 'w'])
 
     def simple(self, ctx):
         r = self.r
@@ -120,7 +130,7 @@ class ProgGen:
             f = r.choice(self.funcs)
             nargs = r.choice([len(f[1]), len(f[1]), max(0, len(f[1]) - 1), len(f[1]) + 1, r.randint(0, 5)])
             args = [self.expr(ctx, r.choice(['num', 'any']), 1) for _ in range(nargs)]
-            if f[3]:
+            if any(g[0] == f[0] and g[3] for g in self.funcs):       # (any definition of that name recurses on its first argument)
                 args = [num(r.randint(0, 3))] + args[1:] if args else [num(2)]
             e = call(f[0], *args)
             if r.random() < 0.5:
@@ -187,10 +197,19 @@ class ProgGen:
     def function(self, depth):
         r = self.r
         self.stats['func'] += 1
-        name = 'fn%d' % len(self.funcs)
+        name = '%s%d' % (r.choice(FUNCTION_NAME_STEMS), len(self.funcs))
         recursive = r.random() < 0.25
+        saved_funcs = None
+        if not recursive and self.funcs and r.random() < 0.2:
+            # a second definition of an existing name: the one executed last is the binding. Its body may only call functions defined
+            # before the first definition of that name, so the call graph stays acyclic
+            name = r.choice(self.funcs)[0]
+            saved_funcs = self.funcs
+            self.funcs = self.funcs[:[f[0] for f in self.funcs].index(name)]
         # parameter names sometimes collide with global names (x, y, g1): a null parameter must still shadow the global
         params = (['a', 'b', 'c'] if r.random() < 0.6 else r.sample(['a', 'x', 'y', 'g1', 'b'], 3))[:r.randint(1 if recursive else 0, 3)]
+        if len(params) >= 2 and not recursive and r.random() < 0.12:
+            params[r.randrange(1, len(params))] = params[0]         # a repeated parameter name (lint warns): the later position is the binding
         last = bool(params) and not recursive and r.random() < 0.3
         types = {p: '?' for p in params}
         if last:
@@ -213,6 +232,8 @@ class ProgGen:
                 # a parameter read as a direct operand (it may be null - a missing argument - while a global of the same name is not)
                 body.append(log_stmt(('bin', '+', sq(pname + '?'), ('group', ('bin', r.choice(['==', '!=', '<']), ('var', pname), r.choice([('var', 'null'), num(1)]))))))
         body += self.block(fctx, min(depth - 1, 2), r.randint(1, 4))
+        if saved_funcs is not None:
+            self.funcs = saved_funcs
         self.funcs.append((name, params, last, recursive))
         return ('func', name, params, last, body)
 
